@@ -143,6 +143,15 @@ def searchsorted(bin_locations, inputs, eps=1e-6):
     return torch.clamp(bin_idx, max=bin_locations.shape[-1] - 2)
 
 
+def clamp_preserve_gradients(x, min=None, max=None):
+    """Clamps the values of `x` to [min, max] and lets gradients pass unchanged.
+
+    The spline functions clamp only to remove rounding errors of an ulp or two; `torch.clamp`
+    has no gradient outside the interval (nor, depending on the torch version, on its bounds),
+    which would cut the gradient of every element whose value was rounded onto a bound."""
+    return x + (torch.clamp(x, min=min, max=max) - x).detach()
+
+
 def cbrt(x):
     """Cube root. Equivalent to torch.pow(x, 1/3), but numerically stable."""
     return torch.sign(x) * torch.exp(torch.log(torch.abs(x)) / 3.0)
